@@ -250,7 +250,8 @@ def run(res: Results, idx: Index, tier: str) -> None:
     for inst in sub.instances:
         if inst.rule == "R-C19e":
             res.add("R-C10d", inst.status, inst.site, f"R-C19e::{inst.key}", f"[C19 R-C19e] {inst.detail}", inst.func)
-    from .c10_batch import run_batch_rules, run_generic_batchers, run_param_fallbacks
+    from .c10_batch import run_batch_rules, run_forwarded_rule_params, run_generic_batchers, run_param_fallbacks
     run_batch_rules(res, idx, tier)
     run_generic_batchers(res, idx, tier)
     run_param_fallbacks(res, idx)
+    run_forwarded_rule_params(res, idx)
